@@ -4,6 +4,8 @@
 
 //! Datos climáticos, modelo del edificio y rutinas para cálculo energético
 
+#[cfg(kani)]
+pub mod kani_models;
 mod checks;
 mod purge;
 mod types;
@@ -26,3 +28,38 @@ pub use types::{
 
 /// Versión del programa
 pub const VERSION: &str = env!("CARGO_PKG_VERSION");
+
+/// Puntos de acceso para verificación (no forman parte de la API pública)
+#[cfg(any(kani, verif_hooks))]
+pub mod verif_hooks {
+    pub use crate::types::HasSurface;
+    use crate::{ConsDb, PropsOverrides, SchedulesDb, Shade, Uuid, WallGeom, Window};
+
+    pub fn is_default<T: Default + PartialEq>(t: &T) -> bool {
+        crate::utils::is_default(t)
+    }
+    pub fn default_1() -> f32 {
+        crate::utils::default_1()
+    }
+    pub fn multiplier_is_1(m: &f32) -> bool {
+        crate::utils::multiplier_is_1(m)
+    }
+    pub fn is_true(b: &bool) -> bool {
+        crate::utils::is_true(b)
+    }
+    pub fn default_true() -> bool {
+        crate::utils::default_true()
+    }
+    pub fn consdb_is_empty(db: &ConsDb) -> bool {
+        db.is_empty()
+    }
+    pub fn schedulesdb_is_empty(db: &SchedulesDb) -> bool {
+        db.is_empty()
+    }
+    pub fn overrides_is_empty(o: &PropsOverrides) -> bool {
+        o.is_empty()
+    }
+    pub fn shades_for_setback(win: &Window, wallgeom: &WallGeom) -> Option<Vec<(Uuid, Shade)>> {
+        win.shades_for_setback(wallgeom)
+    }
+}
